@@ -5,7 +5,7 @@ import (
 )
 
 //zzv:bound U1 = the real (*DefaultFanController).Run start-up (context already cancelled, so the actors only restore) on a hwmon / file fan with RPM-curve data and a PWM map in the store (map contents symbolic, 2 entries): at most a handful of PWM writes happen in the whole run (the restore), the controller's PWM map is the stored one, nothing is written to the store
-//zzv:bound U2 = same with a pwmMap in the fan's configuration and any store content for the map: the controller's PWM map is the configured one and no sweep happens
+//zzv:bound U2 = same (hwmon, file and cmd fans) with a pwmMap in the fan's configuration and any store content for the map: the controller's PWM map is the configured one and no sweep happens
 //zzv:bound U4 = the stored entries are deleted through the persistence interface the reset/init commands use (DeleteFanPwmData + DeleteFanPwmMap) and the next start then analyses the fan again (more than 200 PWM writes: the 255..0 sweep); a second start after that reuses what the first stored (start -> start history)
 //zzv:outside cobra wiring of `fan reset` / `fan init` (cmd/fan imports the CLI stack; only their two delete calls are modelled); the real bbolt store (C14); U3, the README promise that configured minPwm+maxPwm skip the RPM-curve measurement, is a known finding
 //zzv:stub persistence is an in-memory implementation of the Persistence interface; oklog/run.Group.Run sequentialised; time.Sleep no-op
@@ -29,7 +29,7 @@ func ZZ_C15_U1_StoredDataReused() {
 }
 
 func ZZ_C15_U2_ConfiguredMapWins() {
-	kind := zzv.Choice("fanKind", 2)
+	kind := zzv.Choice("fanKind", 3) // hwmon / file / cmd
 	e, mem := zzStartEnv(kind, true)
 	mem.rpm["zzfan"] = map[int]float64{0: 0, 255: 3000}
 	if zzv.Choice("mapStored", 2) == 1 {
@@ -38,7 +38,10 @@ func ZZ_C15_U2_ConfiguredMapWins() {
 	err := zzStart(e, mem)
 	zzv.Record("pwmWrites", zzv.FileWrites(e.pwmPath))
 	zzv.Assert(err == nil, "U2.start_succeeds")
-	zzv.Assert(zzv.FileWrites(e.pwmPath) <= zzFewWrites, "U2.no_sweep_with_configured_map")
+	if kind != zzKindCmd {
+		// a cmd fan writes through a real command in replays: its writes are not counted, the map tells
+		zzv.Assert(zzv.FileWrites(e.pwmPath) <= zzFewWrites, "U2.no_sweep_with_configured_map")
+	}
 	zzv.Assert(zzv.And(len(e.c.pwmMap) == 3, e.c.pwmMap[128] == 128), "U2.configured_map_is_used")
 }
 
